@@ -5,6 +5,7 @@
 // Real xerces-c code; simulated streams, file system, network, handlers and memory managers.
 #include "../sim/parserun.hpp"
 #include "../sim/schedgen.hpp"
+#include "../sim/schemaworld.hpp"
 #include <xercesc/util/TransService.hpp>
 #define POOLSIM_NO_MAIN
 #include "poolsim.cpp"      // PoolBox, Collect, generators and the cached-grammar sub-mode of C15 (PoolTransparency)
@@ -126,10 +127,12 @@ private:
     Json genC18(uint64_t seed, uint64_t index, const std::string& tier) {
         Rng wr = runRng(seed, index, "workload"), fr = runRng(seed, index, "faults");
         GenOpts go; go.maxDepth = 3; go.maxChildren = 3; go.idAttrs = true; if (wr.chance(1, 25)) go.padBytes = 49152 - (int)wr.below(300);
-        World w = makeWorld(wr, go);
+        bool schemaWorld = wr.chance(1, 6);      // an instance of generated schemas (pattern facets: the regular-expression engine allocates from the parser's manager too)
+        World w = schemaWorld ? makeSchemaWorld(wr) : makeWorld(wr, go);
         if (fr.chance(1, 3)) { int n = 1 + fr.small(2); for (int i = 0; i < n; i++) { Resource& r = w.res[fr.below(w.res.size())]; mutateBytes(fr, r.core); if (r.padAt > r.core.size()) r.padAt = r.core.size(); r.expand(); } }
         ParseCfg cfg = ParseCfg::random(wr); cfg.lowWaterMark = -1; cfg.positions = false; if (cfg.scanner == 3) cfg.schema = true;
-        Json plan = Json::obj(); plan.set("mode", "C18"); plan.set("cfg", cfg.toJson()); plan.set("resources", worldToJson(w));
+        if (schemaWorld) { cfg.schema = true; cfg.ns = true; if (cfg.scanner == 1 || cfg.scanner == 2) cfg.scanner = wr.coin() ? 0 : 3; if (cfg.val == 0) cfg.val = 1 + (int)wr.below(2); }
+        Json plan = Json::obj(); plan.set("mode", "C18"); if (schemaWorld) plan.set("schema_world", true); plan.set("cfg", cfg.toJson()); plan.set("resources", worldToJson(w));
         plan.set("resolver", 1 + (int)wr.below(2)); plan.set("nest", 1 + (int)wr.below(3)); plan.set("dom_heap_args", wr.chance(1, 3)); plan.set("second_cycle", wr.chance(1, 4));
         plan.set("max_k", tier == "quick" ? 60 : 400);
         return plan;
@@ -177,7 +180,7 @@ private:
     void execC18(const Json& plan, Outcome& o) {
         std::vector<Resource> res = resourcesFromJson(plan.at("resources")); ParseCfg cfg = ParseCfg::fromJson(plan.at("cfg"));
         int resolver = (int)plan.geti("resolver", 1); int nest = (int)plan.geti("nest", 1); int64_t maxK = plan.geti("max_k", 60);
-        g_run.reset(200000000ull); injected = 0;
+        g_run.reset(200000000ull); injected = 0; if (plan.getb("schema_world")) g_run.probe("schema_world");
         std::string firstCycleDump;
         for (int cycle = 0; cycle < (plan.getb("second_cycle") ? 2 : 1); cycle++) {
             SimMemoryManager* G = new SimMemoryManager("global");
